@@ -55,7 +55,11 @@ fn decode_prog(bytes: &[u8]) -> (String, Vec<(u32, u32)>) {
     let r = render(&prog);
     let style = *s.pick(&[Style::Commented, Style::Spaced, Style::Plain, Style::LeadingComments]);
     let l = gen_layout(&r.toks, &mut s, style);
-    let laid = lay(&r.toks, &l);
+    let mut laid = lay(&r.toks, &l);
+    // classic Mac line ends: only where no comment depends on a line feed
+    if laid.n_comments == 0 && s.chance(1, 4) {
+        laid.text = laid.text.replace('\n', "\r");
+    }
     let mut expected = Vec::new();
     for (di, d) in prog.order.iter().enumerate() {
         if let Decl::Proc(_) = d {
